@@ -15,6 +15,7 @@
 #include <sys/mman.h>
 #include <sys/time.h>
 #include <sys/resource.h>
+#include <execinfo.h>
 
 #define ZSTD_STATIC_LINKING_ONLY
 #define ZDICT_STATIC_LINKING_ONLY
@@ -117,6 +118,14 @@ static void v_case(long idx)
     if (V.casefd >= 0) { char b[32]; int n = snprintf(b, sizeof b, "%-20ld\n", idx); if (pwrite(V.casefd, b, (size_t)n, 0)) {} }
 }
 static void v_on_abort(int sig) { signal(sig, SIG_DFL); fflush(stdout); v_dump(); raise(sig); }
+#if !defined(__SANITIZE_ADDRESS__) && !defined(__SANITIZE_THREAD__)
+/* plain builds: print a backtrace on a fatal signal so that the driver can name the faulting function */
+static void v_on_fatal(int sig) { void* bt[24]; int n; signal(sig, SIG_DFL); { char b[64]; int l = snprintf(b, sizeof b, "FATAL signal %d, backtrace:\n", sig); if (write(2, b, (size_t)l)) {} } n = backtrace(bt, 24); backtrace_symbols_fd(bt, n, 2); v_dump(); raise(sig); }
+static void v_install_fatal(void) { static char stk[1 << 16]; stack_t ss; struct sigaction sa; ss.ss_sp = stk; ss.ss_size = sizeof stk; ss.ss_flags = 0; sigaltstack(&ss, NULL);
+    memset(&sa, 0, sizeof sa); sa.sa_handler = v_on_fatal; sa.sa_flags = SA_ONSTACK; sigaction(SIGSEGV, &sa, NULL); sigaction(SIGBUS, &sa, NULL); sigaction(SIGFPE, &sa, NULL); sigaction(SIGILL, &sa, NULL); }
+#else
+static void v_install_fatal(void) {}
+#endif
 #if defined(__SANITIZE_ADDRESS__)
 void __asan_on_error(void); void __asan_on_error(void) { fflush(stdout); v_dump(); }
 const char* __asan_default_options(void); const char* __asan_default_options(void) { return "abort_on_error=1:detect_leaks=0:allocator_may_return_null=1:handle_abort=0:detect_stack_use_after_return=0:quarantine_size_mb=16:malloc_context_size=8"; }
@@ -137,6 +146,7 @@ static void v_init(int argc, char** argv)
     }
     {   const char* cf = getenv("VERIF_CASEFILE"); if (cf) V.casefd = open(cf, O_WRONLY | O_CREAT, 0644); }
     signal(SIGABRT, v_on_abort);
+    v_install_fatal();
     setvbuf(stdout, NULL, _IOFBF, 1 << 16);
 }
 static int v_finish(void) { v_budget(0); v_dump(); return 0; }
